@@ -20,7 +20,8 @@
    regenerated table, and the kind sets are proved to be exactly the variants of the real enums.
 
    PART B is the L4 model of Routing.v: a router over scripted / recording modules (one behaviour per slot),
-   top-level transactions, contracts that make inline queries and emit sub-messages with or without reply,
+   top-level transactions, contracts that make inline queries and emit sub-messages with or without reply from
+   any of their entry points (instantiate, execute, migrate, sudo, reply), wasm messages with funds,
    run over the SPEC routing (spec_case) and over the regenerated tables (model_case). *)
 From Verif Require Import Base Generated Builder Routing Chk17 Inst17.
 From Coq Require Import String.
@@ -141,6 +142,31 @@ Theorem other_modules_untouched :
 Proof. exact L4_other_modules_untouched. Qed.
 Print Assumptions other_modules_untouched.
 
+(* the sender clause, for EVERY origin: each record a reached probe leaves carries p_sender = i_sender for a
+   message (the user at top level; the EMITTING contract for a contract origin, whichever entry point --
+   instantiate, execute, migrate, sudo or reply -- returned the message; the harness sets i_sender to that
+   address) and the block height of the call; a query carries no sender *)
+Theorem sender_is_emitter :
+  forall inp p e, In e (entries_of inp p) -> e_sender e = p_sender inp p /\ e_height e = i_height inp.
+Proof. exact L4_sender_is_emitter. Qed.
+Print Assumptions sender_is_emitter.
+
+(* funds attached to a WasmMsg::Execute / Instantiate: nothing reaches the bank for an empty vector; for a
+   NON-EMPTY vector (zero-amount coins included) the configured bank module is asked exactly once, with
+   sender = the payer and the coins verbatim (send_payload), BEFORE the callee runs; the callee runs iff the
+   bank agreed, and the bank's refusal is the message's failure *)
+Theorem funds_go_through_the_bank :
+  forall inp ins fc sp cp c,
+  let p := PFunded ins fc sp cp c in
+  let send := mk_entry (slot_id SlBank) (i_sender inp) sp (i_height inp) in
+  let callee := mk_entry callee_slot (i_sender inp) cp (i_height inp) in
+  (f_nonempty fc = false -> entries_of inp p = [callee] /\ answer inp p = ROk None) /\
+  (f_nonempty fc = true -> records (bank_beh inp) = true ->
+     entries_of inp p = send :: (if is_ok (bank_result (bank_beh inp) fc sp) then [callee] else []) /\
+     answer inp p = (if is_ok (bank_result (bank_beh inp) fc sp) then ROk None else RErr)).
+Proof. exact L4_funds_go_through_the_bank. Qed.
+Print Assumptions funds_go_through_the_bank.
+
 (* failing_module_aborts: if the module configured for some probe fails and the failure is not caught by a
    reply / by the querying contract, the whole call fails like any other error and keeps nothing: not the
    earlier write, not what the contract recorded, not any module's marker *)
@@ -170,7 +196,10 @@ Print Assumptions module_result_is_callers.
 
 Theorem module_answer :
   forall inp p, answer inp p =
-    match beh inp p with Accepting => ROk None | RecOk => ROk (Some (p_payload p)) | Failing | RecErr => RErr end.
+    match p with
+    | PFunded _ fc sp _ _ => if f_nonempty fc && negb (is_ok (bank_result (bank_beh inp) fc sp)) then RErr else ROk None
+    | _ => match beh inp p with Accepting => ROk None | RecOk => ROk (Some (p_payload p)) | Failing | RecErr | Keeper => RErr end
+    end.
 Proof. exact answer_spec. Qed.
 Print Assumptions module_answer.
 
@@ -205,11 +234,11 @@ Example kinds_exist :
   In "gas_limit" submsg_struct_fields /\ "gas_limit" <> "msg".
 Proof. repeat split; try discriminate; vm_compute; intuition discriminate. Qed.
 
-(* a governance vote emitted with a reply by an Empty-typed contract after an earlier write, then an IBC
+(* a governance vote emitted with a reply from the MIGRATE entry point of an Empty-typed contract after an earlier write, then an IBC
    message whose module fails uncaught: the gov module (slot 6) and the ibc module (slot 5) are reached with
    the contract as sender, the call fails, nothing is kept *)
 Definition ex_cfg : list behaviour := [RecOk; RecOk; RecOk; RecOk; RecOk; RecErr; RecOk; RecOk].
-Definition ex_abort : input := mk_input ex_cfg SubEmpty true 77 1005 [PMsg MGov 61 true; PMsg MIbc 62 false].
+Definition ex_abort : input := mk_input ex_cfg (SubEmpty EMigrate) true 77 1005 [PMsg MGov 61 true; PMsg MIbc 62 false].
 Example failing_module_aborts_applies :
   lift_abort spec_routes ex_abort = false /\
   (exists p, In p (i_probes ex_abort) /\ stops ex_abort p = true) /\
@@ -217,7 +246,7 @@ Example failing_module_aborts_applies :
   c17 ex_abort (model_case ex_abort) = Agree /\
   (* had the vote been handed to the ibc module instead, the oracle would object at log entry 0 *)
   c17 ex_abort (mk_obs [mk_entry 5 77 61 1005; mk_entry 5 77 62 1005] RErr [] false []) = PropFail 0 /\
-  (* ... or with another sender *)
+  (* ... or with another sender (e.g. the admin who sent the Migrate instead of the migrated contract) *)
   c17 ex_abort (mk_obs [mk_entry 6 78 61 1005; mk_entry 5 77 62 1005] RErr [] false []) = PropFail 0 /\
   (* ... and a call that kept the earlier write although the ibc module failed is rejected *)
   c17 ex_abort (mk_obs [mk_entry 6 77 61 1005; mk_entry 5 77 62 1005] RErr [] true []) = PropFail 300.
@@ -228,7 +257,7 @@ Qed.
 
 (* the same program with the failure caught by a reply: the call succeeds, the contract is shown Ok(data) for
    the vote and the error for the IBC message, the earlier write and the gov module's marker are kept *)
-Definition ex_ok : input := mk_input ex_cfg SubCustom true 77 1005 [PQuery QBank 60 false; PMsg MGov 61 true; PMsg MIbc 62 true].
+Definition ex_ok : input := mk_input ex_cfg (SubCustom EReply) true 77 1005 [PQuery QBank 60 false; PMsg MGov 61 true; PMsg MIbc 62 true].
 Example module_result_is_callers_applies :
   lift_abort spec_routes ex_ok = false /\
   (forall p, In p (i_probes ex_ok) -> stops ex_ok p = false) /\
@@ -251,4 +280,19 @@ Example distribution_query_class_witness :
   model_case ex_f11 = mk_obs [] RPanic [] false [] /\
   c17 ex_f11 (model_case ex_f11) = KnownFail 1 0 /\
   c17 ex_f11 (mk_obs [mk_entry 1 0 63 1005] (ROk None) [(0, ROk (Some 63))]%N false []) = PropFail 0.
+Proof. vm_compute. repeat split; reflexivity. Qed.
+
+(* a contract executes a callee with funds [0 x] (non-empty, zero amounts only) and a recording bank that
+   refuses: the bank's Send record, no callee record, the call fails.  An observation in which the bank was
+   never asked and the callee ran (the guard `any non-zero coin` instead of `non-empty`) is rejected. *)
+Definition ex_funds : input :=
+  mk_input [RecOk; RecErr; RecOk; RecOk; RecOk; RecOk; RecOk; RecOk] (SubCustom EExecute) false 77 1005 [PFunded false FZero1 71 72 false].
+Example funds_go_through_the_bank_applies :
+  f_nonempty FZero1 = true /\ records (bank_beh ex_funds) = true /\
+  spec_case ex_funds = mk_obs [mk_entry 1 77 71 1005] RErr [] false [] /\
+  c17 ex_funds (model_case ex_funds) = Agree /\
+  c17 ex_funds (mk_obs [mk_entry 8 77 72 1005] (ROk None) [] false [(8, 72)]%N) = PropFail 0 /\
+  (* with the crate's own BankKeeper: [0 x; 3 y] is accepted, [0 x; 0 y] refused *)
+  answer (mk_input [RecOk; Keeper] Top false 77 1005 []) (PFunded true FZeroPos 71 72 false) = ROk None /\
+  answer (mk_input [RecOk; Keeper] Top false 77 1005 []) (PFunded true FZero2 71 72 false) = RErr.
 Proof. vm_compute. repeat split; reflexivity. Qed.
